@@ -225,7 +225,7 @@ Proof.
   destruct r_below0 as [B1 [B2 [B3 [B4 [B5 [B6 [B7 B8]]]]]]].
   assert (Hup : forall l, Forall (fun w => w_id w < q_next q) l -> Forall (fun w : watch => w_id w < q_next q + 1) l)
     by (intros l; apply below_weaken; lia).
-  destruct a as [d fl cb|fl cb|k x fl cb|id|].
+  destruct a as [d fl cb|fl cb|k x fl cb|id| |].
   - (* timer *)
     exists pre, post. cbn [q_reg s_reg]. rewrite r_next0, r_now0.
     set (w := mkW (q_next q) KTimer (f_unbind fl) (f_destroy fl) cb (q_now q + d)).
@@ -289,6 +289,7 @@ Proof.
           try (apply insert_watch_forall; [auto|cbn; lia])
       | |- _ <= _ => cbn [q_next]; lia
       end.
+  - exists pre, post. constructor; try assumption. unfold BelowQ. repeat split; assumption.
   - exists pre, post. constructor; try assumption. unfold BelowQ. repeat split; assumption.
   - exists pre, post. constructor; try assumption. unfold BelowQ. repeat split; assumption.
 Qed.
@@ -574,7 +575,7 @@ Lemma rel_action : forall N ids st sd pre post q s a, Rel N ids st sd pre post q
   exists st' sd' pre' post', Rel N ids st' sd' pre' post' (q_action uenv q a) (s_action uenv s a).
 Proof.
   intros N ids st sd pre post q s a R.
-  destruct a as [d fl cb|fl cb|k x fl cb|id|];
+  destruct a as [d fl cb|fl cb|k x fl cb|id| |];
     try (match goal with |- context [q_action uenv q ?a] =>
            destruct (rel_reg env uenv N ids st sd pre post q s a R) as [pre' [post' R']]; exists st, sd, pre', post'; exact R' end).
   exact (rel_cancel env uenv N ids st sd pre post q s id R).
@@ -591,7 +592,7 @@ Qed.
 
 (* the snapshot never grows while actions are performed *)
 Lemma q_reg_snap : forall q a, q_snap (q_reg q a) = q_snap q.
-Proof. intros q a. destruct a as [d fl cb|fl cb|k x fl cb|id|]; try reflexivity. destruct k; reflexivity. Qed.
+Proof. intros q a. destruct a as [d fl cb|fl cb|k x fl cb|id| |]; try reflexivity. destruct k; reflexivity. Qed.
 
 Lemma q_regs_snap : forall l q, q_snap (q_regs q l) = q_snap q.
 Proof. induction l as [|a l IH]; intros q; [reflexivity|]. unfold q_regs in *. cbn [fold_left]. rewrite IH. apply q_reg_snap. Qed.
@@ -614,7 +615,7 @@ Qed.
 
 Lemma q_action_snap_len : forall q a, (length (q_snap (q_action uenv q a)) <= length (q_snap q))%nat.
 Proof.
-  intros q a. destruct a as [d fl cb|fl cb|k x fl cb|id|]; try (cbn [q_action]; rewrite q_reg_snap; lia).
+  intros q a. destruct a as [d fl cb|fl cb|k x fl cb|id| |]; try (cbn [q_action]; rewrite q_reg_snap; lia).
   apply q_cancel_snap_len.
 Qed.
 
